@@ -384,3 +384,134 @@ def rng_paren(p, res):
     else:
         res.bad(F('RNG-PAREN', scan, loops[0], 'state.expression bookkeeping', 'parenthesis depth must be counted'))
     res.require_floor(5)
+
+
+# ---------------------------------------------------------------- RNG-FRAME
+POS_FIELDS = ('name_start', 'name_end', 'value_start', 'value_end')
+
+
+def _lin(p, f, e):
+    from ..linear import linear
+    return linear(e)
+
+
+@rule('RNG-FRAME', 'N', 'offsets measured in a slice are shifted by the slice base exactly once before they are reported')
+def rng_frame(p, res):
+    from ..linear import show
+    # 1. in-place shifting helpers: each of the four position fields += offset exactly once, value fields only when a value exists
+    for fq, off in (('html_matcher.get_attributes', 'start'), ('action_utils.html.shift_attribute_ranges', 'offset')):
+        f = p.func(fq)
+        pm = p.parents(f)
+        augs = [n for n in f.body_nodes() if isinstance(n, ast.AugAssign) and isinstance(n.target, ast.Attribute) and n.target.attr in POS_FIELDS]
+        seen = {}
+        for n in augs:
+            seen.setdefault(n.target.attr, []).append(n)
+        for fld in POS_FIELDS:
+            sts = seen.get(fld, [])
+            if len(sts) != 1 or not isinstance(sts[0].op, ast.Add) or src_of(sts[0].value) != off:
+                res.bad(F('RNG-FRAME', f, sts[0] if sts else f.node, ' ; '.join(src_of(x) for x in sts) or ('%s += %s' % (fld, off)),
+                          'attribute offset %s must be shifted by `%s` exactly once (%d shifts found)' % (fld, off, len(sts))))
+            else:
+                guard = pm.get(sts[0])
+                if fld.startswith('value') and not (isinstance(guard, ast.If) and src_of(guard.test) == 'attr.value is not None'):
+                    res.bad(F('RNG-FRAME', f, sts[0], src_of(sts[0]), 'value offsets exist only when the attribute has a value: the shift must be guarded by `attr.value is not None`'))
+                else:
+                    res.ok('%s: attr.%s += %s once' % (f.short, fld, off))
+    # the slice base equals the shift
+    ga = p.func('html_matcher.get_attributes')
+    if 'attrs = attributes(source[start:end], name)' in src_of(ga.node):
+        res.ok('get_attributes: parses source[start:end] and shifts by start')
+    else:
+        res.bad(F('RNG-FRAME', ga, ga.node, 'attributes(source[start:end], name)', 'the parsed slice must start at the offset used for shifting'))
+    got = p.func('action_utils.html.get_open_tag.scan_callback')
+    if 'shift_attribute_ranges(attributes(code[start:end], name), start)' in src_of(got.node):
+        res.ok('get_open_tag: attributes(code[start:end]) shifted by start')
+    else:
+        res.bad(F('RNG-FRAME', got, got.node, 'shift_attribute_ranges(attributes(code[start:end], name), start)', 'slice base and shift must be the same `start`'))
+    # 2. get_tag_selection_model: every reported endpoint is  start + <offset relative to the tag>
+    f = p.func('action_utils.html.get_tag_selection_model')
+    if 'tag_src = code[start:end]' not in src_of(f.node) or 'attributes(tag_src, name)' not in src_of(f.node):
+        raise AnalysisError('RNG-FRAME: get_tag_selection_model no longer parses code[start:end]')
+    rel_atoms = {'attr.name_start', 'attr.name_end', 'attr.value_start', 'attr.value_end', 'val[0]', 'val[1]'}
+    for c in f.body_nodes():
+        if isinstance(c, ast.Call) and src_of(c.func) == 'push_range' and len(c.args) == 2 and isinstance(c.args[1], ast.Tuple):
+            for e in c.args[1].elts:
+                lin = _lin(p, f, e)
+                rel = [k for k in (lin or {}) if k in rel_atoms]
+                if lin is None or lin.get('start') != 1 or len(rel) != 1 or lin.get(rel[0]) != 1 or set(lin) - {'start', rel[0]}:
+                    res.bad(F('RNG-FRAME', f, c, src_of(c), 'endpoint `%s` = %s: an offset relative to the tag must be shifted by `start` exactly once' % (src_of(e), show(lin))))
+                else:
+                    res.ok('%s = start + %s' % (src_of(e), rel[0]))
+        if isinstance(c, ast.Call) and src_of(c.func) == 'token_list' and len(c.args) == 2:
+            sl, off = c.args
+            lo = _lin(p, f, off)
+            if isinstance(sl, ast.Subscript) and isinstance(sl.slice, ast.Slice) and src_of(sl.value) == 'tag_src' \
+                    and lo == {'start': 1, src_of(sl.slice.lower): 1} and src_of(sl.slice.lower) in rel_atoms and src_of(sl.slice.upper) in rel_atoms:
+                res.ok('token_list(tag_src[%s:%s], start + %s)' % (src_of(sl.slice.lower), src_of(sl.slice.upper), src_of(sl.slice.lower)))
+            else:
+                res.bad(F('RNG-FRAME', f, c, src_of(c), 'class tokens are split from a slice of the tag; their offset must be start + the slice lower bound'))
+    tl = p.func('action_utils.utils.token_list')
+    s = src_of(tl.node)
+    if s.count('(offset + start, offset + end)') == 1 and s.count('(offset + start, offset + pos)') == 1:
+        res.ok('token_list shifts both ends of every token by offset')
+    else:
+        res.bad(F('RNG-FRAME', tl, tl.node, 'ranges.append((offset + start, offset + end))', 'both ends of every token must be shifted by offset'))
+    first = [c for c in f.body_nodes() if isinstance(c, ast.Assign) and src_of(c.targets[0]) == 'ranges']
+    if first and src_of(first[0].value) == '[(start + 1, start + 1 + len(name))]':
+        res.ok('tag name range = (start + 1, start + 1 + len(name))')
+    else:
+        res.bad(F('RNG-FRAME', f, first[0] if first else f.node, src_of(first[0].value) if first else '?', 'the tag name starts right after `<`'))
+    # 3. value_range: quotes / braces stripped inside the value range
+    vr = p.func('action_utils.html.value_range')
+    s = src_of(vr.node)
+    if 'attr.value_start + 1' in s and 'attr.value_end - (1 if last_ch == ch else 0)' in s and 'attr.value_end - 1' in s and 'return (attr.value_start, attr.value_end)' in s:
+        res.ok('value_range strips one quote/brace on each side, only when present')
+    else:
+        res.bad(F('RNG-FRAME', vr, vr.node, 'value_range body', 'the unquoted value range is the value range minus the quotes/braces that are actually there'))
+    # 4. css: CSSProperty shifts every relative offset by `offset`; split_value gets the document offset of its slice
+    cp = p.func('action_utils.css.CSSProperty.__init__')
+    s = src_of(cp.node)
+    for w in ('self.name = (offset + name[0], offset + name[1])', 'self.value = (offset + start, offset + end)',
+              'self.value_tokens = split_value(code[start:end], offset + start)', 'self.before = before'):
+        if w in s:
+            res.ok('CSSProperty: ' + w)
+        else:
+            res.bad(F('RNG-FRAME', cp, cp.node, w, 'declaration offsets are measured in the body fragment and must be shifted by `offset` exactly once'))
+    pp = p.func('action_utils.css.parse_properties')
+    s = src_of(pp.node)
+    for w in ('fragment = code[parse_from:parse_to]', 'scan(fragment, scan_callback)', 'state = ParsePropertiesState(parse_from)'):
+        if w in s:
+            res.ok('parse_properties: ' + w)
+        else:
+            res.bad(F('RNG-FRAME', pp, pp.node, w, 'the scanned fragment starts at parse_from; `before` starts there too'))
+    cb = pp.nested.get('scan_callback')
+    if cb is None:
+        raise AnalysisError('RNG-FRAME: parse_properties.scan_callback vanished')
+    for c in cb.body_nodes():
+        if isinstance(c, ast.Call) and src_of(c.func) == 'CSSProperty':
+            if len(c.args) == 7 and src_of(c.args[0]) == 'fragment' and src_of(c.args[6]) == 'parse_from' and src_of(c.args[2]) == 'state.before':
+                res.ok('CSSProperty(fragment, .., state.before, .., parse_from)')
+            else:
+                res.bad(F('RNG-FRAME', cb, c, src_of(c).replace('\n', ' '), 'CSSProperty takes the fragment, offsets relative to it, and parse_from as the shift'))
+        if isinstance(c, ast.Assign) and src_of(c.targets[0]) == 'state.before':
+            lin = _lin(p, cb, c.value)
+            if lin is not None and lin.get('parse_from') == 1:
+                res.ok('state.before = %s' % src_of(c.value))
+            else:
+                res.bad(F('RNG-FRAME', cb, c, src_of(c), '`before` is a document offset: a fragment offset must be shifted by parse_from once'))
+    # select items: value fragments shifted by the value start
+    for fq, base in (('action_utils.css.select_next_item.scan_callback', 'start'), ('action_utils.css.select_previous_item', 'state.value_start')):
+        f = p.func(fq)
+        s = src_of(f.node)
+        sl = 'split_value(code[%s:%s])' % (base, 'end' if base == 'start' else 'state.value_end')
+        if sl in s and ('(r[0] + %s, r[1] + %s)' % (base, base)) in s:
+            res.ok('%s: fragments of %s shifted by %s' % (f.short, sl, base))
+        else:
+            res.bad(F('RNG-FRAME', f, f.node, sl, 'value fragments are measured in the value slice and must be shifted by its start on both ends'))
+    gs = p.func('action_utils.css.get_css_section')
+    s = src_of(gs.node) + src_of(gs.nested['scan_callback'].node)
+    if 'CSSSection(sel[0], end, sel[2] + 1, start)' in s and 'parse_properties(code, section.body_start, section.body_end)' in s:
+        res.ok('CSSSection(selector start, block end, after "{", before "}") and its body range handed to parse_properties')
+    else:
+        res.bad(F('RNG-FRAME', gs, gs.node, 'CSSSection(sel[0], end, sel[2] + 1, start)', 'section = selector start .. block end, body = after the opening brace .. before the closing brace'))
+    res.require_floor(30)
